@@ -1,6 +1,6 @@
 (* Properties/C15.v -- the query path is free of data races (lock-set half).
    The instance for the table regenerated from /repo on every run is Properties/C15_instance.v. *)
-From NX Require Import Bytes Locks LockFacts Resolver LastModFacts Rmw RmwFacts.
+From NX Require Import Bytes Locks LockFacts Resolver LastModFacts Rmw RmwFacts RmwEmbed.
 From Coq Require Import Permutation.
 Open Scope Z_scope.
 
@@ -45,3 +45,13 @@ Theorem C15_recheck_meaning : forall p pre x post,
   recheck p = true -> p = pre ++ Wr x :: post -> In x (reads_of pre) -> in_force x (cur_reads pre) = true.
 Proof. exact recheck_write_in_force. Qed.
 Print Assumptions C15_recheck_meaning.
+
+(* (C) from a method body taken on its own (a frame) to an entry-point path that contains it: the path is the
+   frame's events in order with blocks in between -- the events of callees that give back every lock they take.
+   A frame that passes the rule writes, in the path too, a location read before only while a read of it is in
+   force (to which (A) applies) *)
+Theorem C15_frame_rule_transfers : forall fr p, embeds fr p -> recheck fr = true -> well_bracketed p [] = true ->
+  forall pre x post, fr = pre ++ Wr x :: post -> In x (reads_of pre) ->
+  exists prep postp, p = prep ++ Wr x :: postp /\ in_force x (cur_reads prep) = true.
+Proof. exact frame_rule_transfers. Qed.
+Print Assumptions C15_frame_rule_transfers.
